@@ -42,6 +42,10 @@ func genCrashCase(t *rapid.T) lab.CrashCase {
 			c.Points = append(c.Points, rapid.IntRange(0, 1000).Draw(t, "point"))
 		}
 	}
+	// one scenario in 8 is also cross-validated with a real SIGKILL of a child process on a file-backed store
+	if rapid.IntRange(0, 7).Draw(t, "realKill") == 7 {
+		c.Kill = append(c.Kill, rapid.IntRange(0, 1000).Draw(t, "killPoint"))
+	}
 	ns := rapid.IntRange(0, 2).Draw(t, "nSecond")
 	for i := 0; i < ns; i++ {
 		c.Second = append(c.Second, rapid.IntRange(0, 1000).Draw(t, "second"))
@@ -54,7 +58,7 @@ func crashSpec(id string) vprop.Spec[lab.CrashCase] {
 		ID:  id,
 		Gen: genCrashCase,
 		Check: func(c lab.CrashCase) (res vprop.Result) {
-			res.Sample = map[string]any{"scenario": c.Sc.Summary(), "points_permille": c.Points, "every_prefix": c.All, "second_permille": c.Second}
+			res.Sample = map[string]any{"scenario": c.Sc.Summary(), "points_permille": c.Points, "every_prefix": c.All, "second_permille": c.Second, "real_kill_permille": c.Kill}
 			if c.All {
 				res.Label("every-prefix")
 			}
@@ -67,6 +71,14 @@ func crashSpec(id string) vprop.Spec[lab.CrashCase] {
 		Journal:      true,
 		ReplayRepeat: 10,
 	}
+}
+
+// TestCrashChild is the child side of the real-kill cross-validation; it does nothing unless VERIF_CHILD_CASE is set.
+func TestCrashChild(t *testing.T) {
+	if os.Getenv("VERIF_CHILD_CASE") == "" {
+		t.Skip("child entry point")
+	}
+	lab.ChildMain()
 }
 
 func TestC09(t *testing.T) { vprop.Run(t, crashSpec("C09")) }
